@@ -85,8 +85,11 @@ impl<'a, C: Cfg> LazyVisitor for LazyPlay<'a, C> {
 impl<C: Cfg> World<C> {
     /// source kinds: 0 ElementRef, 1 ElementMut, 2 drained element, 3 pop, 4 remove, 5 swap_remove handle
     pub fn do_lazy(&mut self, v: usize, w: usize, kind: u32, j: usize, depth: u32, consume: &[u8], tr: &mut String) {
-        const KN: [&str; 6] = ["ElementRef", "ElementMut", "drained Element", "Pop handle", "Remove handle", "SwapRemove handle"];
-        let kind = kind % 6;
+        const KN: [&str; 7] = ["ElementRef", "ElementMut", "drained Element", "Pop handle", "Remove handle", "SwapRemove handle", "second drained Element"];
+        let mut kind = kind % 7;
+        if kind == 6 && self.model[w].len() < 2 {
+            kind = 2;
+        }
         let names: Vec<&str> = consume.iter().map(|c| LC_NAMES[(*c % LC_KINDS) as usize]).collect();
         let _ = write!(tr, "lazy_clone({} of v{}[{}], depth {}, consume {:?} -> v{})", KN[kind as usize], w, j, depth, names, v);
         let wlen = self.model[w].len();
@@ -94,7 +97,7 @@ impl<C: Cfg> World<C> {
             let _ = write!(tr, " [skipped]");
             return;
         }
-        let j = if kind == 3 { wlen - 1 } else { j % wlen };
+        let j = if kind == 3 { wlen - 1 } else if kind == 6 { 1 + j % (wlen - 1) } else { j % wlen };
         // destination admission: plan only consumptions the destination can take
         let mut consume: Vec<u8> = consume.iter().map(|c| c % LC_KINDS).collect();
         let mut room = match self.flav[v].fixed_cap() {
@@ -164,6 +167,16 @@ impl<C: Cfg> World<C> {
                         drop(e);
                         drop(d);
                     }
+                    6 => {
+                        // drain two elements; the lazy clone is taken of the *second* one
+                        let mut d = wv.drain(j - 1..j + 1);
+                        let first = d.next().expect("drain of two elements yielded nothing");
+                        let e = d.next().expect("drain of two elements yielded only one");
+                        <C::Tr as TSet>::lazy_elem(&e, play);
+                        drop(e);
+                        drop(first);
+                        drop(d);
+                    }
                     3 => {
                         let h = wv.pop().expect("pop on a non-empty vector returned None");
                         <C::Tr as TSet>::lazy_pop(&h, play);
@@ -206,6 +219,10 @@ impl<C: Cfg> World<C> {
         }
         // model: source
         match kind {
+            6 => {
+                self.model[w].remove(j);
+                self.model[w].remove(j - 1);
+            }
             2 | 4 => {
                 self.model[w].remove(j);
             }
@@ -244,7 +261,7 @@ impl<C: Cfg> World<C> {
                 }
             }
             // dropping lazies destroys nothing: only the removal kinds destroy exactly the source
-            let expected_drops = (if kind >= 2 { 1 } else { 0 }) + replaced_in_dst as u64;
+            let expected_drops = (if kind == 6 { 2 } else if kind >= 2 { 1 } else { 0 }) + replaced_in_dst as u64;
             let drops1 = reg(|r| r.drop_calls);
             if drops1 - drops0 != expected_drops {
                 self.fail(MON_CLONE | MON_OWN, "lazy:drops", format!("lazy clone play destroyed {} element(s), expected {}", drops1 - drops0, expected_drops));
